@@ -522,16 +522,17 @@ theorem sim_rev_err : ∀ (m : Nat) (T : DTask), RevE m T := by
         · cases h
       | call f args =>
         simp only [taskOf, run, bind_err, mapSt_err] at h
-        rcases h with h | ⟨vs, hvs, h | ⟨mc, hmc, h | ⟨scope, hsc, h⟩⟩⟩
+        rcases h with h | ⟨fv, hfv, h | ⟨vs, hvs, h | ⟨mc, hmc, h | ⟨scope, hsc, h⟩⟩⟩⟩
         · rw [← hlook] at h
           exact DErr.now (by simp [doc, h, bind, Except.bind]) he
+        · rw [← hlook] at h hfv
+          exact DErr.now (by simp [doc, hfv, h, bind, Except.bind]) he
         · -- the callee is not a macro
-          rw [← hlook] at hvs
-          have : getDMacro d (dlook loc d f) = .error e := by
-            rw [hlook]
-            cases hv : st.look f with
+          rw [← hlook] at hvs hfv
+          have : getDMacro d fv = .error e := by
+            cases fv with
             | «macro» i =>
-              simp only [hv, getMacro] at h
+              simp only [getMacro] at h
               simp only [getDMacro]
               cases hi : st.macros[i]? with
               | some mc => simp [hi] at h
@@ -539,22 +540,22 @@ theorem sim_rev_err : ∀ (m : Nat) (T : DTask), RevE m T := by
                 have : d.macros[i]? = none := by
                   rw [List.getElem?_eq_none_iff] at hi ⊢; rw [hg.mlen]; exact hi
                 simp [hi] at h; simp [this, h]
-            | atom a => simpa [hv, getDMacro, getMacro] using h
-            | list xs => simpa [hv, getDMacro, getMacro] using h
-            | dict kv => simpa [hv, getDMacro, getMacro] using h
-            | undef => simpa [hv, getDMacro, getMacro] using h
-          exact DErr.now (by simp [doc, hvs, this, bind, Except.bind]) he
+            | atom a => simpa [getDMacro, getMacro] using h
+            | list xs => simpa [getDMacro, getMacro] using h
+            | dict kv => simpa [getDMacro, getMacro] using h
+            | undef => simpa [getDMacro, getMacro] using h
+          exact DErr.now (by simp [doc, hfv, hvs, this, bind, Except.bind]) he
         · obtain ⟨dm, hdm, ms⟩ := getMacro_sim_rev hg hmc
           obtain ⟨hp, _, _, _⟩ := ms
-          rw [← hlook] at hvs hdm
-          exact DErr.now (by simp [doc, hvs, hdm, hp, h, bind, Except.bind]) he
+          rw [← hlook] at hvs hfv
+          exact DErr.now (by simp [doc, hfv, hvs, hdm, hp, h, bind, Except.bind]) he
         · obtain ⟨dm, hdm, ms⟩ := getMacro_sim_rev hg hmc
           obtain ⟨hp, hdw, hd1, hd2⟩ := ms
-          rw [← hlook] at hvs hdm
+          rw [← hlook] at hvs hfv
           rw [hd1, hd2] at h
           have r := ih k hk (.dirs dm.dirs dm.target) (scope ++ loc) d (st.push scope) e h he hdw
             (by simp [St.push, hl]) (hg.of_same rfl rfl rfl) trivial
-          exact DErr.xexpr_call hvs hdm (by rw [hp]; exact hsc) r
+          exact DErr.xexpr_call hfv hvs hdm (by rw [hp]; exact hsc) r
     | loop v items D t =>
       have hdw : DirsWF D t := hwf
       cases items with
